@@ -523,7 +523,7 @@ func c15Create(c *rt.CaseResult, seed int64, idx int, scratch string) [][]tlog {
 }
 
 func init() {
-	Registry["C15"].Rule += " P9: a database with 1200-2100 keys (some overwritten, some deleted) is reopened several times with a collector period of 20-200 us, and used by four goroutines right after each Open: the start-up (loading, clean-up of leftovers) runs next to the database's own scheduled work. P8: directories limited to 100 entries on 1-2 roots, six writers of fresh keys and two deleters, the scheduled collector at 20 ms: directories fill up, are replaced, lose files and are handed back to the directory repository by the cleaner while other goroutines are choosing a directory. P7: clean-up batches of several thousand versions, i.e. more chunks of the cleaner than three times the workers (rollbacks of transactions with 4300-5000 deletions, one worker) while other goroutines write and read. P6: two or three databases in one process (the third behind the server), each driven by its own goroutines at the same time. P5: the steady workload (inline and through the server) with faults injected by stateless fault functions - a few percent of the content writes fail (no space, fully or after half the chunk; EIO), of the metadata writes and file creations fail, one root reports less free space than the other, and one call in eight carries a context that expires within 20-600 us - so that the error and clean-up paths run concurrently under the race detector too."
+	Registry["C15"].Rule += " P9: a database with 1200-2100 keys (some overwritten, some deleted) is reopened several times with a collector period of 20-200 us, and used by four goroutines (reads, writes, deletions, transactions, key listings of the whole database outside and inside transactions) right after each Open: the start-up (loading, clean-up of leftovers) runs next to the database's own scheduled work. P8: directories limited to 100 entries on 1-2 roots, six writers of fresh keys and two deleters, the scheduled collector at 20 ms: directories fill up, are replaced, lose files and are handed back to the directory repository by the cleaner while other goroutines are choosing a directory. P7: clean-up batches of several thousand versions, i.e. more chunks of the cleaner than three times the workers (rollbacks of transactions with 4300-5000 deletions, one worker) while other goroutines write and read. P6: two or three databases in one process (the third behind the server), each driven by its own goroutines at the same time. P5: the steady workload (inline and through the server) with faults injected by stateless fault functions - a few percent of the content writes fail (no space, fully or after half the chunk; EIO), of the metadata writes and file creations fail, one root reports less free space than the other, and one call in eight carries a context that expires within 20-600 us - so that the error and clean-up paths run concurrently under the race detector too."
 }
 
 // c15BigBatch: one goroutine ends transactions whose clean-up is larger than one chunk of the
@@ -686,6 +686,17 @@ func c15Reopen(c *rt.CaseResult, seed int64, idx int, scratch string) [][]tlog {
 					kind := []string{"get", "set", "delete", "begin"}[(i+g)%4]
 					c15Op(env.DB, kind, fmt.Sprintf("r%05d", (i*37+g)%n), fmt.Sprintf("p9-%d-%d-%d", idx, g, i))
 					logs[g] = append(logs[g], tlog{kind, s, time.Since(t0)})
+					if i%13 == g {
+						// listings of more than a thousand keys (a fifth of them deleted), outside and
+						// inside transactions of every level
+						s := time.Since(t0)
+						env.DB.GetKeys(ctxBg)
+						if tx, err := env.DB.Begin(ctxBg, verif.IsoLevel((i/13+g)%4)); err == nil {
+							tx.GetKeys(ctxBg)
+							tx.Rollback(ctxBg)
+						}
+						logs[g] = append(logs[g], tlog{"getkeys", s, time.Since(t0)})
+					}
 				}
 			}(g)
 		}
